@@ -762,8 +762,16 @@ class PathExec:
         if c in ('std::f64::MIN_POSITIVE', 'f64::MIN_POSITIVE'): return F64(2.2250738585072014e-308)
         if c in ('std::f64::MAX', 'f64::MAX'): return F64(1.7976931348623157e308)
         if c in ('RangeFull', 'std::ops::RangeFull'): return Agg('struct', 'RangeFull', None, [])
-        if c == 'i32::MIN': return Int(-(1 << 31) & 0xffffffff, 'i32')
-        if c == 'i32::MAX': return Int((1 << 31) - 1, 'i32')
+        im = re.match(r'^(?:std::|core::)?(?:num::)?(i8|i16|i32|i64|i128|isize|u8|u16|u32|u64|u128|usize)::(MIN|MAX|BITS)$', c)
+        if im:
+            t, w = im.group(1), im.group(2); nb = INT_BITS[t]
+            if w == 'BITS': return Int(nb, 'u32')
+            if t[0] == 'i': return Int((1 << (nb - 1)) if w == 'MIN' else (1 << (nb - 1)) - 1, t)
+            return Int(0 if w == 'MIN' else (1 << nb) - 1, t)
+        fm = re.match(r'^(?:std::|core::)?(f64|f32)::(MAX|MIN|INFINITY|NEG_INFINITY|NAN|EPSILON|MIN_POSITIVE)$', c)
+        if fm and fm.group(1) == 'f64':
+            import sys as _sys
+            return F64({'MAX': _sys.float_info.max, 'MIN': -_sys.float_info.max, 'INFINITY': float('inf'), 'NEG_INFINITY': float('-inf'), 'NAN': float('nan'), 'EPSILON': _sys.float_info.epsilon, 'MIN_POSITIVE': _sys.float_info.min}[fm.group(2)])
         pm = re.match(r'^(.*)::promoted\[(\d+)\]$', c)
         if pm and c not in s.prog.consts:
             base = s.prog.resolve(pm.group(1))
